@@ -93,6 +93,12 @@ impl Clone for LP {
         LP::new(v)
     }
 }
+#[cfg(feature = "cfg_default")]
+impl<'de> serde::Deserialize<'de> for LP {
+    fn deserialize<D: serde::Deserializer<'de>>(d: D) -> Result<LP, D::Error> {
+        <u32 as serde::Deserialize>::deserialize(d).map(LP::new)
+    }
+}
 /// Payload WITHOUT drop glue (no destructor anywhere): a crate may not skip any ordering for such
 /// values either. Its destruction is not observable; the release of its memory is.
 pub struct LN {
@@ -276,6 +282,10 @@ pub enum TOp {
     TryUnwrap,
     TryUniqueInner,
     UnwrapOrClone,
+    /// serde: `Deserialize::deserialize_in_place` into handle 0 (value 1), then the handle must be a sole owner
+    DeserInPlaceW,
+    /// the same with a deserializer that fails: handle 0 must be left as it was
+    DeserInPlaceErr,
 }
 
 pub fn op_valid(op: TOp, hs: &[Kind]) -> bool {
@@ -289,6 +299,7 @@ pub fn op_valid(op: TOp, hs: &[Kind]) -> bool {
         DepWriteW => k0 == Kind::MS,
         MakeMutW => matches!(k0, Kind::A | Kind::O),
         MakeUniqueW | TryUnwrap | UnwrapOrClone => k0 == Kind::A,
+        DeserInPlaceW | DeserInPlaceErr => k0 == Kind::A && cfg!(feature = "cfg_default"),
     }
 }
 /// kinds after the op (static simulation used by the program generator)
@@ -501,6 +512,48 @@ pub fn run_program(me: u32, p: &Program, first: LH, is_writer: bool, rules: Rule
                     fail(COWSEM, format!("thread {}: after make_mut + write of {} the writer reads {} through its own handle", me, written, v));
                 }
                 fact(format!("t{}:make_mut={}", me, if before == after { "in_place" } else { "copied" }));
+            }
+            #[cfg(not(feature = "cfg_default"))]
+            DeserInPlaceW | DeserInPlaceErr => unreachable!(),
+            #[cfg(feature = "cfg_default")]
+            DeserInPlaceW | DeserInPlaceErr => {
+                use serde::de::value::{BoolDeserializer, Error, U32Deserializer};
+                let LH::A(x) = &mut hs[0] else { unreachable!() };
+                let before = x.heap_ptr() as usize;
+                let ok = *op == DeserInPlaceW;
+                let (_, v_before) = cap(|| x.read());
+                let r = cap(|| {
+                    if ok {
+                        <Arc<LP> as serde::Deserialize>::deserialize_in_place(U32Deserializer::<Error>::new(1), x).is_ok()
+                    } else {
+                        <Arc<LP> as serde::Deserialize>::deserialize_in_place(BoolDeserializer::<Error>::new(true), x).is_ok()
+                    }
+                });
+                let after = x.heap_ptr() as usize;
+                if r != ok {
+                    fail(COWSEM, format!("thread {}: deserialize_in_place returned is_ok()={} where the value's own deserializer gives {}", me, r, ok));
+                }
+                if ok {
+                    // sole owner of the new value, whatever the other threads are doing with the old one
+                    let c = cap(|| Arc::count(x));
+                    if c != 1 {
+                        fail(CONSERVE, format!("thread {}: handle produced by deserialize_in_place has count {}: not a sole owner", me, c));
+                    }
+                    let (rd, v) = cap(|| x.read());
+                    if rd && v != 1 {
+                        fail(COWSEM, format!("thread {}: deserialized 1, the handle reads {}", me, v));
+                    }
+                    fact(format!("t{}:deser={}", me, if before == after { "in_place" } else { "fresh" }));
+                } else {
+                    if before != after {
+                        fail(COWSEM, format!("thread {}: a failed deserialize_in_place replaced the handle", me));
+                    }
+                    let (rd, v) = cap(|| x.read());
+                    if rd && v != v_before {
+                        fail(COWSEM, format!("thread {}: a failed deserialize_in_place changed the value from {} to {}", me, v_before, v));
+                    }
+                    fact(format!("t{}:deser=err", me));
+                }
             }
             TryUnwrap | TryUniqueInner | UnwrapOrClone => {
                 let h = hs.remove(0);
